@@ -8,7 +8,7 @@ From GV Require Import Base.Ints Gen.Math Gen.Kernel Model.Mirror
   Proofs.MirrorTotal Proofs.MirrorRestart Proofs.MirrorLog
   Proofs.MirrorResumeWit Proofs.MirrorResumeLoad Proofs.MirrorResumeInv Proofs.MirrorResumeStart
   Proofs.MirrorResumeAhead Proofs.MirrorResumeOps Proofs.MirrorResumeOps2 Proofs.MirrorResumeOps3 Proofs.MirrorResumeOps4
-  Proofs.MirrorResumeOps5 Proofs.MirrorResume.
+  Proofs.MirrorResumeOps5 Proofs.MirrorResumeAhead2 Proofs.MirrorResume.
 Import ListNotations.
 Local Open Scope N_scope.
 
@@ -92,21 +92,22 @@ Proof.
   split; [exact (proj1 (proj2 A1))|exact Hup].
 Qed.
 
-(** after a crash at a clean cut: at most one height above what the uninterrupted operation reaches *)
+(** after a crash at ANY point: at most one height above what the uninterrupted operation reaches *)
 Theorem crash_height_bound ih ivs s o k s1 r s' :
   1 <= ih -> vwf ivs -> reachable_g ih ivs s ->
-  step s o = Ok (s1, r) -> wf_op o r -> clean_cut s o k ->
+  step s o = Ok (s1, r) -> wf_op o r ->
   xstep s (XCrash k o) = Ok (s', r) ->
   v_h (k_vot s) <= v_h (k_vot s') /\ v_h (k_vot s') <= v_h (k_vot s1) + 1.
 Proof.
-  intros Hih Hivs Hr Hs Hw Hcut Hx.
-  destruct (crash_stores_between ih ivs s o k s1 r Hih Hivs Hr Hs Hw Hcut) as (Q1&Q2&Q3).
+  intros Hih Hivs Hr Hs Hw Hx.
+  destruct (crash_stores_between ih ivs s o k s1 r Hih Hivs Hr Hs Hw) as (stc&Q1&Q2&Q3&_&Eq).
   destruct (reachable_g_K ih ivs s Hih Hivs Hr) as [HK HT].
   destruct (K_step _ _ _ _ _ _ HK HT Hw Hs) as (K1&_&_).
   pose proof (proj1 (proj1 HK)) as Hc. pose proof (proj1 (proj1 K1)) as Hc1.
   pose proof Hc as (Hi1&Hi2&_).
-  cbn [xstep] in Hx. rewrite Hs in Hx. cbn [bind fst snd] in Hx. rewrite Hi1, Hi2 in Hx.
-  destruct (restart ih ivs _ (st_vals s) _) as [s2|] eqn:Er; cbn [bind] in Hx; [|discriminate].
+  cbn [xstep] in Hx. rewrite Hs in Hx. cbn [bind fst snd] in Hx. fold (crash_stores s s1 k) in Hx.
+  rewrite Hi1, Hi2, Eq in Hx.
+  destruct (restart ih ivs stc (st_vals s) _) as [s2|] eqn:Er; cbn [bind] in Hx; [|discriminate].
   inversion Hx; subst s2.
   destruct (restart_height_bound ih ivs _ _ _ _ Hih Hivs Q1 Er) as [B1 B2].
   destruct Q2 as (_&L1&_). destruct Q3 as (_&L2&_).
